@@ -281,6 +281,8 @@ class Mol:
         ringb = [k for k in sorted(self.bonds) if k not in tree]
         base = rng.choice((1, 1, 1, 7, 9, 10, 42, 90))       # two-digit (%nn) ring numbers too
         lab = {k: min(99, r + base) for r, k in enumerate(ringb)}
+        reuse = rng.random() < 0.35                           # ring numbers reused once their ring is closed
+        in_use = set()
         stereo = {}                                           # directional single bonds (no effect on valence)
         for k in sorted(self.bonds):
             if self.bonds[k] == 1 and k not in self.arom and k in tree and rng.random() < 0.04:
@@ -306,16 +308,26 @@ class Mol:
 
         def rec(i):
             s = self.atom_smiles(i, rng.getrandbits(3))
+            released = []
             for k in ringb:
                 if i not in k:
                     continue
                 if k not in self._ring_side:   # first visited end opens the ring
                     side = rng.randrange(3)   # bond char at opening, closing or both
                     self._ring_side[k] = side
+                    if reuse:
+                        n_ = base
+                        while n_ in in_use and n_ < 99:
+                            n_ += 1
+                        lab[k] = n_
+                        in_use.add(n_)
                     s += (bsym(k) if side != 1 else "") + lab_s(lab[k])
                 else:
                     side = self._ring_side[k]
                     s += (bsym(k) if side != 0 else "") + lab_s(lab[k])
+                    released.append(lab[k])
+            for n_ in released:                # a number is free again after the atom that closed it
+                in_use.discard(n_)
             ch = children[i]
             for c in ch[:-1]:
                 s += "(" + bsym((i, c), rng.random() < 0.1) + rec(c) + ")"
